@@ -88,7 +88,7 @@ def correspondence(ctx):
                                                                     'library': inp.get('library')}, 'impl': c['impl']})
                 break
     corr.rule = ("supply chains of 1-3 steps (plain step names incl. dots and dashes) carried out through the built binary: per step run or "
-                 "record start/stop, Ed25519/ECDSA-P256/P384/RSA-2048/3072 PEM keys or a certificate leaf (root or root+intermediate CA), "
+                 "record start/stop, Ed25519/ECDSA-P256/P384/RSA-2048/3072 PEM keys or a certificate leaf (issued by the root, by one intermediate CA, or by an issuing CA under a policy CA under the root; intermediates in the layout or passed with -i as a bundle file issuing+policy, and in further invocations as the reversed bundle, as two -i files, behind an unrelated certificate, and incompletely), "
                  "threshold 1 or 2, --use-dsse per step, -d metadata dir, --lstrip-paths, directory recording with --exclude, "
                  "--normalize-line-endings with CRLF deliverables, multi-line stdout/stderr; layout (CREATE / MATCH..WITH PRODUCTS FROM "
                  "previous / DISALLOW *, 1-2 inspections running sh -c true, test -f or grep, optional REQUIRE) dumped unsigned with the "
